@@ -41,6 +41,9 @@ CONSTANTS
   JoinRaceFixed,  \* TRUE: model a hypothetical repair that keeps unsubscribe/close behind a pending join
   UrgentClose,    \* TRUE: a close spawned by a failing subscribe (`go c.close`) starts before anything else happens
                   \* (replay configs: that goroutine cannot be held back), FALSE: it may be delayed (design check)
+  NoPush,         \* subset of BOOLEAN: TRUE = the transport disables subscribe pushes (Transport.DisabledPushFlags has
+                  \* PushFlagSubscribe, e.g. a unidirectional transport that reports subscriptions differently): the
+                  \* server-side subscribe writes no push; everything else (join, presence, leave) is unaffected
   JobsLast        \* TRUE: dissolver jobs run only after every thread finished (replay configs: the job's
                   \* 1 s delay cannot be scheduled), FALSE: at any time (design check)
 
@@ -48,7 +51,7 @@ Threads == {"CS", "CU", "SS", "SU", "CL", "TK"}
 None == [gen |-> 0, sub |-> FALSE, subCh |-> "nil", ss |-> FALSE]
 
 VARIABLES
-  ops, async,
+  ops, async, nopush,
   pc, loc,
   entry,        \* c.channels[ch] (None = absent)
   ctr,          \* subGenCounter
@@ -67,13 +70,13 @@ VARIABLES
   out,          \* frames written to the connection: "subreply", "subpush", "unsubreply", "unsubpush", "suberr", "disc"
   step
 
-vars == <<ops, async, pc, loc, entry, ctr, closedGens, hubE, brokerSub, jobs, pres, status, closeReq, closing, settled,
+vars == <<ops, async, nopush, pc, loc, entry, ctr, closedGens, hubE, brokerSub, jobs, pres, status, closeReq, closing, settled,
           established, jl, cbs, out, step>>
 
 NoLoc == [gen |-> 0, has |-> FALSE, tgen |-> 0, wait |-> FALSE, wasSub |-> FALSE, rgen |-> 0, snap |-> FALSE]
 
 Init ==
-  /\ ops \in OpSets /\ async \in BOOLEAN
+  /\ ops \in OpSets /\ async \in BOOLEAN /\ nopush \in NoPush
   /\ pc = [t \in Threads |-> "idle"] /\ loc = [t \in Threads |-> NoLoc]
   /\ entry = None /\ ctr = 0 /\ closedGens = {} /\ hubE = 0 /\ brokerSub = FALSE /\ jobs = 0
   /\ pres = FALSE /\ status = "connected" /\ closeReq = FALSE /\ closing = FALSE /\ settled = FALSE /\ established = 0
@@ -112,7 +115,7 @@ CSReserve ==
           /\ ctr' = ctr + 1
           /\ loc' = [loc EXCEPT !["CS"].gen = ctr + 1]
           /\ Go("CS", "cb") /\ UNCHANGED out
-  /\ UNCHANGED <<ops, async, closedGens, hubE, brokerSub, jobs, pres, status, closeReq, closing, settled, established, jl, cbs>>
+  /\ UNCHANGED <<ops, async, nopush, closedGens, hubE, brokerSub, jobs, pres, status, closeReq, closing, settled, established, jl, cbs>>
   /\ Step("CS", "Reserve")
 
 \* the second "still reserved and not closed" check of subscribeCmd (by channel NAME, not generation)
@@ -129,7 +132,7 @@ CSCallback ==       \* cb(reply): first check, addSubscription
        THEN CSFail(g) /\ UNCHANGED <<brokerSub, pres>>
        ELSE /\ hubE' = g /\ UNCHANGED <<jobs, entry, closedGens, closeReq, closing, settled, brokerSub, pres>>
             /\ IF hubE = 0 THEN Go("CS", "bsub") ELSE Go("CS", "pres")
-  /\ UNCHANGED <<ops, async, loc, ctr, status, established, jl, cbs, out, closing, settled>>
+  /\ UNCHANGED <<ops, async, nopush, loc, ctr, status, established, jl, cbs, out, closing, settled>>
   /\ Step("CS", "Callback")
 
 CSBrokerSubscribed ==
@@ -144,14 +147,14 @@ CSBrokerSubscribed ==
                  ELSE UNCHANGED <<entry, closedGens>>
             /\ HubRemove(g)
        ELSE Go("CS", "pres") /\ UNCHANGED <<entry, closedGens, hubE, jobs, closeReq, closing, settled>>
-  /\ UNCHANGED <<ops, async, loc, ctr, pres, status, established, jl, cbs, out, closing, settled>>
+  /\ UNCHANGED <<ops, async, nopush, loc, ctr, pres, status, established, jl, cbs, out, closing, settled>>
   /\ Step("CS", "BrokerSubscribed")
 
 CSPresenceReply ==  \* AddPresence lands, subscribe reply enqueued
   /\ pc["CS"] = "pres"
   /\ pres' = TRUE /\ out' = Write("subreply")
   /\ Go("CS", "replied")
-  /\ UNCHANGED <<ops, async, loc, entry, ctr, closedGens, hubE, brokerSub, jobs, status, closeReq, closing, settled, established, jl, cbs>>
+  /\ UNCHANGED <<ops, async, nopush, loc, entry, ctr, closedGens, hubE, brokerSub, jobs, status, closeReq, closing, settled, established, jl, cbs>>
   /\ Step("CS", "PresenceReply")
 
 \* commitSubscription for generation g; ss = server-side. Result in pc: committed -> pcOk, else pcFail
@@ -175,13 +178,13 @@ Commit(t, g, ss, pcOk, pcFail, failSpawnsClose) ==
 CSCommit ==
   /\ pc["CS"] = "replied" /\ NoBsub
   /\ Commit("CS", loc["CS"].gen, FALSE, "join", "done", TRUE)
-  /\ UNCHANGED <<ops, async, loc, ctr, brokerSub, status, jl, cbs, out, closing, settled>>
+  /\ UNCHANGED <<ops, async, nopush, loc, ctr, brokerSub, status, jl, cbs, out, closing, settled>>
   /\ Step("CS", "Commit")
 
 CSJoin ==
   /\ pc["CS"] = "join"
   /\ jl' = Append(jl, [k |-> "join", g |-> loc["CS"].gen]) /\ Go("CS", "done")
-  /\ UNCHANGED <<ops, async, loc, entry, ctr, closedGens, hubE, brokerSub, jobs, pres, status, closeReq, closing, settled, established, cbs, out>>
+  /\ UNCHANGED <<ops, async, nopush, loc, entry, ctr, closedGens, hubE, brokerSub, jobs, pres, status, closeReq, closing, settled, established, cbs, out>>
   /\ Step("CS", "Join")
 
 ---------------------------------------------------------------------------
@@ -195,13 +198,13 @@ SSReserve ==
             /\ loc' = [loc EXCEPT !["SS"].gen = ctr + 1]
             /\ hubE' = ctr + 1                                   \* no "still reserved" check on this path
             /\ IF hubE = 0 THEN Go("SS", "bsub") ELSE Go("SS", "pres")
-  /\ UNCHANGED <<ops, async, closedGens, brokerSub, jobs, pres, status, closeReq, closing, settled, established, jl, cbs, out>>
+  /\ UNCHANGED <<ops, async, nopush, closedGens, brokerSub, jobs, pres, status, closeReq, closing, settled, established, jl, cbs, out>>
   /\ Step("SS", "Reserve")
 
 SSBrokerSubscribed ==
   /\ pc["SS"] = "bsub"
   /\ brokerSub' = TRUE /\ Go("SS", "pres")
-  /\ UNCHANGED <<ops, async, loc, entry, ctr, closedGens, hubE, jobs, pres, status, closeReq, closing, settled, established, jl, cbs, out>>
+  /\ UNCHANGED <<ops, async, nopush, loc, entry, ctr, closedGens, hubE, jobs, pres, status, closeReq, closing, settled, established, jl, cbs, out>>
   /\ Step("SS", "BrokerSubscribed")
 
 SSPresenceCommit ==
@@ -214,22 +217,22 @@ SSPresenceCommit ==
             /\ closedGens' = closedGens \cup {g} /\ established' = established + 1
             /\ Go("SS", "committed") /\ UNCHANGED <<hubE, jobs, closeReq, closing, settled>>
        ELSE Commit("SS", g, TRUE, "committed", "done", FALSE)
-  /\ UNCHANGED <<ops, async, loc, ctr, brokerSub, status, jl, cbs, out, closing, settled>>
+  /\ UNCHANGED <<ops, async, nopush, loc, ctr, brokerSub, status, jl, cbs, out, closing, settled>>
   /\ Step("SS", "PresenceCommit")
 
 SSPush ==
   /\ pc["SS"] = "committed"
-  /\ out' = Write("subpush")
+  /\ out' = IF nopush THEN out ELSE Write("subpush")
   \* the join is published even when the push cannot be written (connection closed meanwhile): the subscription
   \* is committed and its leave will be published
   /\ Go("SS", "join")
-  /\ UNCHANGED <<ops, async, loc, entry, ctr, closedGens, hubE, brokerSub, jobs, pres, status, closeReq, closing, settled, established, jl, cbs>>
+  /\ UNCHANGED <<ops, async, nopush, loc, entry, ctr, closedGens, hubE, brokerSub, jobs, pres, status, closeReq, closing, settled, established, jl, cbs>>
   /\ Step("SS", "Push")
 
 SSJoin ==
   /\ pc["SS"] = "join"
   /\ jl' = Append(jl, [k |-> "join", g |-> loc["SS"].gen]) /\ Go("SS", "done")
-  /\ UNCHANGED <<ops, async, loc, entry, ctr, closedGens, hubE, brokerSub, jobs, pres, status, closeReq, closing, settled, established, cbs, out>>
+  /\ UNCHANGED <<ops, async, nopush, loc, entry, ctr, closedGens, hubE, brokerSub, jobs, pres, status, closeReq, closing, settled, established, cbs, out>>
   /\ Step("SS", "Join")
 
 ---------------------------------------------------------------------------
@@ -248,7 +251,7 @@ UStart(t) ==
   /\ IF status = "closed"
        THEN Go(t, "done") /\ UNCHANGED loc              \* Client.Unsubscribe / HandleCommand on a closed client: no-op
        ELSE UnsubSnapshot(t)
-  /\ UNCHANGED <<ops, async, entry, ctr, closedGens, hubE, brokerSub, jobs, pres, status, closeReq, closing, settled, established, jl, cbs, out>>
+  /\ UNCHANGED <<ops, async, nopush, entry, ctr, closedGens, hubE, brokerSub, jobs, pres, status, closeReq, closing, settled, established, jl, cbs, out>>
   /\ Step(t, "UnsubStart")
 
 PendingJoin(g) == (pc["CS"] = "join" /\ loc["CS"].gen = g) \/ (pc["SS"] \in {"committed", "join"} /\ loc["SS"].gen = g)
@@ -273,13 +276,13 @@ UProceed(t) ==           \* wait gate, then the generation-matched delete under 
                     ELSE \* a reservation: only the hub entry (if any) is removed, no presence/leave/callback
                          /\ NoBsub /\ HubRemove(entry.gen)
                          /\ out' = FinishFrame(t) /\ Go(t, AfterUnsub(t))
-  /\ UNCHANGED <<ops, async, ctr, brokerSub, pres, status, closeReq, closing, settled, established, jl, cbs>>
+  /\ UNCHANGED <<ops, async, nopush, ctr, brokerSub, pres, status, closeReq, closing, settled, established, jl, cbs>>
   /\ Step(t, "UnsubProceed")
 
 URemovePresence(t) ==
   /\ pc[t] = "rempres"
   /\ pres' = FALSE /\ Go(t, "leave")
-  /\ UNCHANGED <<ops, async, loc, entry, ctr, closedGens, hubE, brokerSub, jobs, status, closeReq, closing, settled, established, jl, cbs, out>>
+  /\ UNCHANGED <<ops, async, nopush, loc, entry, ctr, closedGens, hubE, brokerSub, jobs, status, closeReq, closing, settled, established, jl, cbs, out>>
   /\ Step(t, "RemovePresence")
 
 ULeave(t) ==
@@ -287,14 +290,14 @@ ULeave(t) ==
   /\ jl' = Append(jl, [k |-> "leave", g |-> loc[t].rgen])
   /\ HubRemove(loc[t].rgen)
   /\ Go(t, "ucb")
-  /\ UNCHANGED <<ops, async, loc, entry, ctr, closedGens, brokerSub, pres, status, closeReq, closing, settled, established, cbs, out>>
+  /\ UNCHANGED <<ops, async, nopush, loc, entry, ctr, closedGens, brokerSub, pres, status, closeReq, closing, settled, established, cbs, out>>
   /\ Step(t, "Leave")
 
 UCallback(t) ==
   /\ pc[t] = "ucb"
   /\ cbs' = Append(cbs, "unsub")
   /\ out' = FinishFrame(t) /\ Go(t, AfterUnsub(t))
-  /\ UNCHANGED <<ops, async, loc, entry, ctr, closedGens, hubE, brokerSub, jobs, pres, status, closeReq, closing, settled, established, jl>>
+  /\ UNCHANGED <<ops, async, nopush, loc, entry, ctr, closedGens, hubE, brokerSub, jobs, pres, status, closeReq, closing, settled, established, jl>>
   /\ Step(t, "UnsubCallback")
 
 ---------------------------------------------------------------------------
@@ -306,7 +309,7 @@ CLStart ==
      ELSE /\ status' = "closed"
           /\ loc' = [loc EXCEPT !["CL"].snap = Has]            \* channels snapshot under c.mu
           /\ Go("CL", "tclose")
-  /\ UNCHANGED <<ops, async, entry, ctr, closedGens, hubE, brokerSub, jobs, pres, closeReq, settled, established, jl, cbs, out>>
+  /\ UNCHANGED <<ops, async, nopush, entry, ctr, closedGens, hubE, brokerSub, jobs, pres, closeReq, settled, established, jl, cbs, out>>
   /\ Step("CL", "CloseStart")
 
 CLTransportClosed ==
@@ -314,13 +317,13 @@ CLTransportClosed ==
   /\ pc["TK"] \notin {"tkalive", "tkpres"}          \* close() takes presenceMu, held by a running tick
   /\ out' = Append(out, "disc")
   /\ IF loc["CL"].snap THEN UnsubSnapshot("CL") ELSE Go("CL", "kdisc") /\ UNCHANGED loc
-  /\ UNCHANGED <<ops, async, entry, ctr, closedGens, hubE, brokerSub, jobs, pres, status, closeReq, closing, settled, established, jl, cbs>>
+  /\ UNCHANGED <<ops, async, nopush, entry, ctr, closedGens, hubE, brokerSub, jobs, pres, status, closeReq, closing, settled, established, jl, cbs>>
   /\ Step("CL", "TransportClosed")
 
 CLDisconnectCb ==
   /\ pc["CL"] = "kdisc"
   /\ cbs' = Append(cbs, "disc") /\ Go("CL", "done")
-  /\ UNCHANGED <<ops, async, loc, entry, ctr, closedGens, hubE, brokerSub, jobs, pres, status, closeReq, closing, settled, established, jl, out>>
+  /\ UNCHANGED <<ops, async, nopush, loc, entry, ctr, closedGens, hubE, brokerSub, jobs, pres, status, closeReq, closing, settled, established, jl, out>>
   /\ Step("CL", "DisconnectCallback")
 
 ---------------------------------------------------------------------------
@@ -333,20 +336,20 @@ TKStart ==
        THEN Go("TK", "done")                         \* closed, or no subscribed channel with duties: nothing to do
        ELSE Go("TK", "tkalive")                      \* snapshot taken, parked in the alive callback
   /\ loc' = [loc EXCEPT !["TK"].tgen = entry.gen]
-  /\ UNCHANGED <<ops, async, entry, ctr, closedGens, hubE, brokerSub, jobs, pres, status, closeReq, closing, settled, established, jl, cbs, out>>
+  /\ UNCHANGED <<ops, async, nopush, entry, ctr, closedGens, hubE, brokerSub, jobs, pres, status, closeReq, closing, settled, established, jl, cbs, out>>
   /\ Step("TK", "TickStart")
 
 TKCheck ==          \* closing? channel still present (by name)? then AddPresence
   /\ pc["TK"] = "tkalive"
   /\ IF closing \/ ~Has THEN Go("TK", "done") ELSE Go("TK", "tkpres")
-  /\ UNCHANGED <<ops, async, loc, entry, ctr, closedGens, hubE, brokerSub, jobs, pres, status, closeReq, closing, settled, established, jl, cbs, out>>
+  /\ UNCHANGED <<ops, async, nopush, loc, entry, ctr, closedGens, hubE, brokerSub, jobs, pres, status, closeReq, closing, settled, established, jl, cbs, out>>
   /\ Step("TK", "TickCheck")
 
 TKAdd ==            \* AddPresence lands; compensateRacedPresence removes it again if the channel is gone (by name)
   /\ pc["TK"] = "tkpres"
   /\ pres' = Has
   /\ Go("TK", "done")
-  /\ UNCHANGED <<ops, async, loc, entry, ctr, closedGens, hubE, brokerSub, jobs, status, closeReq, closing, settled, established, jl, cbs, out>>
+  /\ UNCHANGED <<ops, async, nopush, loc, entry, ctr, closedGens, hubE, brokerSub, jobs, status, closeReq, closing, settled, established, jl, cbs, out>>
   /\ Step("TK", "TickAdd")
 
 ---------------------------------------------------------------------------
@@ -359,7 +362,7 @@ JobRun ==
   /\ JobsLast => AllDone
   /\ jobs' = jobs - 1
   /\ brokerSub' = IF hubE = 0 THEN FALSE ELSE brokerSub
-  /\ UNCHANGED <<ops, async, pc, loc, entry, ctr, closedGens, hubE, pres, status, closeReq, closing, settled, established, jl, cbs, out>>
+  /\ UNCHANGED <<ops, async, nopush, pc, loc, entry, ctr, closedGens, hubE, pres, status, closeReq, closing, settled, established, jl, cbs, out>>
   /\ step' = [thr |-> "JOB", act |-> "JobRun"]
 
 \* the periodic presence tick that follows once everything is quiet ("settled" in C06)
@@ -367,7 +370,7 @@ SettleTick ==
   /\ AllDone /\ ~settled
   /\ settled' = TRUE
   /\ pres' = IF status # "closed" /\ Has /\ entry.sub THEN TRUE ELSE pres
-  /\ UNCHANGED <<ops, async, pc, loc, entry, ctr, closedGens, hubE, brokerSub, jobs, status, closeReq, closing, established, jl, cbs, out>>
+  /\ UNCHANGED <<ops, async, nopush, pc, loc, entry, ctr, closedGens, hubE, brokerSub, jobs, status, closeReq, closing, established, jl, cbs, out>>
   /\ step' = [thr |-> "TK2", act |-> "SettleTick"]
 
 Next ==
@@ -430,5 +433,5 @@ WOps5 == {{"CS", "SU"}}
 WOps6 == {{"SS", "CU", "CS", "CL", "TK"}}
 WOps7 == {{"SS", "SU", "CS"}}
 
-View == <<ops, async, pc, loc, entry, ctr, closedGens, hubE, brokerSub, jobs, pres, status, closeReq, closing, settled, established, jl, cbs, out>>
+View == <<ops, async, nopush, pc, loc, entry, ctr, closedGens, hubE, brokerSub, jobs, pres, status, closeReq, closing, settled, established, jl, cbs, out>>
 =============================================================================
